@@ -23,7 +23,8 @@ CLASSES = ["Deconvolution1D", "Deconvolution2D", "Poisson1D", "Heat1D", "Abel1D"
 
 
 def _norm(e) -> str:
-    return unparse(e).replace(" ", "").replace("\n", "")
+    from .common import vstr
+    return vstr(e)
 
 
 def _defs(fn) -> Dict[str, List[ast.Assign]]:
